@@ -7,10 +7,10 @@ ENTRY = dict(
         corr_files=["Corr/C05Corr.v"],
         theorems=["c05_generate_is_core", "c05_tables", "c05_coeffs", "c05_chosen", "c05_coeffs_sum", "c05_coeffs_sign",
                   "c05_kappa_nonneg", "c05_exact_total", "c05_exact_coeff", "c05_sorted", "c05_counts_layout", "c05_shape",
-                  "c05_spec_exp", "c05_observable_bits", "c05_qpd_bits", "c05_projection", "c05_scans", "c05_bases_aligned", "c05_project_bound", "c05_refuse_types",
+                  "c05_build_total", "c05_spec_exp", "c05_observable_bits", "c05_qpd_bits", "c05_projection", "c05_scans", "c05_bases_aligned", "c05_project_bound", "c05_refuse_types",
                   "c05_refuse_num_samples", "c05_refuse_suffix", "c05_refuse_1q_unseparated", "c05_facts"],
         allowed_axioms=[],
-        facts=["value_error_sites", "c05_loops", "c05_group_loop_calls", "c05_f2_guard", "c05_pass_order", "c05_formulas", "c05_dummy_index",
+        facts=["value_error_sites", "c05_label_parse", "c05_loops", "c05_group_loop_calls", "c05_f2_guard", "c05_pass_order", "c05_formulas", "c05_dummy_index",
                "c05_register_names"],
         harness="c05",
         level_text="Unbounded theorems (any number of partitions, cuts, samples, groups, instructions; closed under the global context) "
@@ -26,9 +26,9 @@ ENTRY = dict(
                    "passes) the C14 splice of the chosen maps with QPD measurement k on clbit nc0+nobs+k followed by the C11 rotation/"
                    "measurement suffix on clbits nc0..nc0+nobs-1, registers old ++ observable ++ qpd, and after the passes the same up to "
                    "deleted resets with no placeholder or marker left; the placeholder labelled _k receives joint[k] in every partition, and when every cut id is an index into `bases` the ids are exactly 0..n-1 and bases[k] is the basis of a placeholder labelled _k (so coefficient and circuit use the same map of the same basis); "
-                   "refusal theorems for the type mismatches, num_samples < 1 / NaN / -inf, a missing or non-numeric label suffix and "
+                   "a totality theorem for the per-circuit step (valid request, no earlier observable register, matching width, measured qubits in range => always the declared circuit); refusal theorems for the type mismatches, num_samples < 1 / NaN / -inf, a missing or non-numeric label suffix and "
                    "one-qubit placeholders in an unseparated circuit. The model is run inside Coq on every input the implementation ran "
-                   "on (about 275 generated calls per quick run, about 2400 in the thorough tier) and compared circuit by circuit, instruction by instruction, register "
+                   "on (about 310 generated calls per quick run, about 2900 in the thorough tier) and compared circuit by circuit, instruction by instruction, register "
                    "layout exactly, coefficient types exactly, coefficient values exactly where binary64 arithmetic is exact and within "
                    "1e-12*kappa otherwise.",
         level_note=STD_NOTE + "No axioms. The weights dictionary (generate_qpd_weights: property C04) and the commuting groups "
@@ -36,7 +36,7 @@ ENTRY = dict(
                    "seed and asks the real ObservableCollection. The model follows the REPAIRED behaviour for defect F2 (final resets removed "
                    "before the placeholder measurement of an identity group; property C19). Cases in which a group measures nothing and a reset "
                    "can precede the placeholder measurement are routed to a separate checker group that accepts both the repaired and the "
-                   "unrepaired output (extra resets on qubit 0 in exactly those circuits), so C05 stays quiet about F2 on the unrepaired tree; "
+                   "unrepaired output (extra resets on qubit 0 in exactly those circuits), so C05 stays quiet about F2 on an unrepaired tree (/repo has the repair since 6c55756); "
                    "the fact c05_f2_guard likewise accepts both. Idle qubits (defect F4, a None partition key) are not generated. "
                    "Names of the two final registers, float/WeightType types of the coefficient entries and 'inputs untouched' are checked "
                    "by the harness on the implementation's output and enter the per-case verdict.",
@@ -54,7 +54,20 @@ ENTRY = dict(
             "exact rational arithmetic; the sign is the sign of the exact product (binary64 underflow of np.prod is not modelled); "
             "sum()/np.prod association order is irrelevant in Q",
             "partition labels are interned by Python ==/hash (dict-key semantics); dicts have distinct keys",
-            "outside the model: a pre-existing register named qpd_measurements, negative label suffixes (Python's negative indexing), "
+            "OBSERVATION (outside the quantifier, not generated, neither model nor judge alarm on it): a label ending in a NEGATIVE "
+            "integer ('x_-1') is accepted by the source (int('-1')) and then indexes map_ids[-1] / bases_dict[-1] with Python's negative "
+            "indexing, silently misaligning the cuts; harness/circ.py canonicalises such a label as 'no suffix'",
+            "the hypothesis exact_weights of c05_exact_total / c05_exact_coeff is an oracle contract: it is discharged for the C04 model in "
+            "Properties/C01.v (c01_weights_from_c04), and its completeness half (every joint map with probability clearly above the 1e-14 "
+            "cut-off is a key of the dictionary when num_samples = inf) is evaluated inside Coq on every infinite-budget case "
+            "(Corr/C05Corr.v inf_complete) and restated independently in judge",
+            "when generate_qpd_weights itself raises for a num_samples >= 1 the oracle has no output; such a case is counted and skipped "
+            "(C04's business)",
+            "judge fixes no order among the samples: it searches an assignment of the sampled joint maps to (coefficient z, block z of every "
+            "partition) that is consistent and uses every map once, trying the documented order first; which resets may be missing from a "
+            "returned circuit is judged by an independent rule (leading, final or duplicate on the qubit's wire; the placeholder "
+            "measurement of an identity group does not count as a later instruction)",
+            "outside the model: a user gate named qpd_measure, a pre-existing register named qpd_measurements, negative label suffixes (Python's negative indexing), "
             "circuits/observables of other types than QuantumCircuit/dict/PauliList beyond the modelled refusal order, total weight 0",
             "Python's sorted(..., reverse=True) is stable (equal keys keep their order); monitored on every case through the exact "
             "comparison of coefficient order and circuit order",
